@@ -22,7 +22,7 @@ fn line(parts: Vec<Part>) -> Stmt {
 
 /// names of the slot items (index = alphabet position); `i` = slot index for unique labels
 pub const ITEM_NAMES: &[&str] = &[
-    "text", "asg", "print", "glue-end", "glue-start", "tag", "cond-inline", "seq", "cycle", "once", "if-block", "fcall-value", "fcall-text", "fstmt-text", "tunnel", "temp", "string", "choice-basic", "choice-bracket", "choice-label", "choice-cond", "choice-fallback", "choice-nested", "thread", "count-knot", "turns-since", "choice-count", "divert-k2-back", "fcall-nested", "tag-alone", "line-divert",
+    "text", "asg", "print", "glue-end", "glue-start", "tag", "cond-inline", "seq", "cycle", "once", "if-block", "fcall-value", "fcall-text", "fstmt-text", "tunnel", "temp", "string", "choice-basic", "choice-bracket", "choice-label", "choice-cond", "choice-fallback", "choice-nested", "thread", "count-knot", "turns-since", "choice-count", "divert-k2-back", "fcall-nested", "tag-alone", "line-divert", "choice-inline-divert",
 ];
 
 pub fn item(a: usize, i: usize) -> Vec<Stmt> {
@@ -55,6 +55,18 @@ pub fn item(a: usize, i: usize) -> Vec<Stmt> {
             Stmt::Line { parts: vec![t("Going on "), p(x()), t(" ")], tags: vec![], divert: Some(Target::Label(lab("hop"))) },
             Stmt::Weave(Weave { choices: vec![], gather: Some(Gather { label: Some(lab("hop")), parts: vec![t("landed "), p(Expr::Count(lab("hop"))), t(".")] }) }),
         ],
+        // the divert is written on the choice line: the choice's text runs on into the target (W2b)
+        "choice-inline-divert" => vec![Stmt::Weave(Weave {
+            choices: vec![
+                // (only the bracketed form `start[only] end -> k` is calibrated: choices/fallback-choice;
+                // for `* text -> k` without brackets there is no reference-compiled example, so it is
+                // not generated)
+                Choice { sticky: false, label: None, conds: vec![], start: vec![t("Hello ")], only: vec![t("there")], end: vec![t("again.")], fallback: false, body: vec![Stmt::InlineDivert(Target::Label(lab("ihop")))] },
+                Choice { sticky: false, label: None, conds: vec![], start: vec![], only: vec![t("just go")], end: vec![], fallback: false, body: vec![Stmt::InlineDivert(Target::Label(lab("ihop")))] },
+                Choice { sticky: true, label: None, conds: vec![], start: vec![t("wait here")], only: vec![], end: vec![], fallback: false, body: vec![Stmt::line("Waited.")] },
+            ],
+            gather: Some(Gather { label: Some(lab("ihop")), parts: vec![t("Landed "), p(x()), t(".")] }),
+        })],
         "temp" => vec![
             Stmt::Assign { name: lab("tmp"), expr: Expr::bin(x(), BinOp::Mul, Expr::Int(2)), kind: AssignKind::Set, temp_decl: true },
             line(vec![t("Temp "), p(Expr::var(&lab("tmp"))), t(".")]),
@@ -487,7 +499,53 @@ pub fn calibration() -> Vec<(&'static str, Program)> {
                 vec![to("test")],
                 vec![knot(
                     "test",
-                    vec![line(vec![Part::Seq(SeqKind::Stopping, vec!["I entered the casino.".into(), "I entered the casino again.".into(), "Once more, I went inside.".into()])]), weave(vec![ch(true, "", "Try again", "", vec![to("test")])], None)],
+                    vec![line(vec![Part::Seq(SeqKind::Stopping, vec!["I entered the casino.".into(), "I entered the casino again.".into(), "Once more, I went inside.".into()])]), weave(vec![ch(true, "", "Try again", "", vec![Stmt::InlineDivert(Target::Knot("test".into()))])], None)],
+                )],
+            ),
+        ),
+        (
+            "choices/fallback-choice.ink.json",
+            prog(
+                vec![],
+                vec![to("find_help")],
+                vec![knot(
+                    "find_help",
+                    vec![
+                        tl("You search desperately for a friendly face in the crowd."),
+                        weave(
+                            vec![
+                                ch(false, "The woman in the hat", "?", " pushes you roughly aside.", vec![Stmt::InlineDivert(Target::Knot("find_help".into()))]),
+                                ch(false, "The man with the briefcase", "?", " looks disgusted as you stumble past him.", vec![Stmt::InlineDivert(Target::Knot("find_help".into()))]),
+                                Choice { fallback: true, ..ch(false, "", "", "", vec![]) },
+                            ],
+                            g("But it is too late: you collapse onto the station platform. This is the end."),
+                        ),
+                        end(),
+                    ],
+                )],
+            ),
+        ),
+        (
+            // (explored to choice depth 2 only: deeper, the knot runs out of choices and content)
+            "choices/divert-choice.ink.json",
+            prog(
+                vec![],
+                vec![to("knot")],
+                vec![knot(
+                    "knot",
+                    vec![
+                        tl("You see a soldier."),
+                        weave(
+                            vec![
+                                ch(false, "", "Pull a face", "", vec![Stmt::Line { parts: vec![t("You pull a face, and the soldier comes at you! ")], tags: vec![], divert: Some(Target::Label("shove".into())) }]),
+                                Choice { label: Some("shove".into()), ..ch(false, "", "Shove the guard aside", " You shove the guard to one side, but he comes back swinging.", vec![]) },
+                                Choice { conds: vec![Expr::Count("shove".into())], ..ch(false, "", "Grapple and fight", "", vec![]) },
+                            ],
+                            g(""),
+                        ),
+                        to("knot"),
+                        end(),
+                    ],
                 )],
             ),
         ),
@@ -496,7 +554,7 @@ pub fn calibration() -> Vec<(&'static str, Program)> {
             prog(
                 vec![],
                 vec![to("test")],
-                vec![knot("test", vec![line(vec![Part::Seq(SeqKind::Cycle, vec!["I held my breath.".into(), "I waited impatiently.".into(), "I paused.".into()])]), weave(vec![ch(true, "", "Try again", "", vec![to("test")])], None)])],
+                vec![knot("test", vec![line(vec![Part::Seq(SeqKind::Cycle, vec!["I held my breath.".into(), "I waited impatiently.".into(), "I paused.".into()])]), weave(vec![ch(true, "", "Try again", "", vec![Stmt::InlineDivert(Target::Knot("test".into()))])], None)])],
             ),
         ),
         (
@@ -504,14 +562,14 @@ pub fn calibration() -> Vec<(&'static str, Program)> {
             prog(
                 vec![],
                 vec![to("test")],
-                vec![knot("test", vec![line(vec![Part::Seq(SeqKind::Once, vec!["Would my luck hold?".into(), "Could I win the hand?".into()])]), weave(vec![ch(true, "", "Try again", "", vec![to("test")])], None)])],
+                vec![knot("test", vec![line(vec![Part::Seq(SeqKind::Once, vec!["Would my luck hold?".into(), "Could I win the hand?".into()])]), weave(vec![ch(true, "", "Try again", "", vec![Stmt::InlineDivert(Target::Knot("test".into()))])], None)])],
             ),
         ),
         (
             "conditional/condtext.ink.json",
             prog(
                 vec![],
-                vec![tl("\"We are going on a trip,\" said Monsieur Fogg."), weave(vec![ch(false, "", "The wager.", "", vec![to("know_about_wager")]), ch(false, "", "I was surprised.", "", vec![to("i_stared")])], None)],
+                vec![tl("\"We are going on a trip,\" said Monsieur Fogg."), weave(vec![ch(false, "", "The wager.", "", vec![Stmt::InlineDivert(Target::Knot("know_about_wager".into()))]), ch(false, "", "I was surprised.", "", vec![Stmt::InlineDivert(Target::Knot("i_stared".into()))])], None)],
                 vec![
                     knot("know_about_wager", vec![tl("I had heard about the wager."), to("i_stared")]),
                     knot(
@@ -609,7 +667,7 @@ pub fn calibration() -> Vec<(&'static str, Program)> {
                         branches: vec![(Expr::bin(x(), BinOp::Eq, Expr::Int(0)), vec![tl("This is text 1.")]), (Expr::bin(x(), BinOp::Gt, Expr::Int(0)), vec![tl("This is text 2.")])],
                         else_: Some(vec![tl("This is text 3.")]),
                     },
-                    weave(vec![ch(true, "", "The Choice.", "", vec![to("to_end")])], None),
+                    weave(vec![ch(true, "", "The Choice.", "", vec![Stmt::InlineDivert(Target::Knot("to_end".into()))])], None),
                 ],
                 vec![knot("to_end", vec![Stmt::Line { parts: vec![t("This is the end. ")], tags: vec![], divert: Some(Target::End) }])],
             ),
